@@ -46,12 +46,21 @@ func c19Jobs(tier string, seed int64) []string {
 		}
 		jobs = append(jobs, "bool:"+strconv.Itoa(n)+":"+strconv.Itoa(b)+":"+strconv.Itoa(of)+":"+strconv.Itoa(flags))
 	}
-	fof := 16
+	// quick: a quarter of the 2-node float expressions (which quarter depends on the seed); thorough: all
+	fof, fmod := 16, 64
 	if tier == "thorough" {
-		fof = 200
+		fof, fmod = 200, 200
+	}
+	off := int(seed % 4)
+	if off < 0 {
+		off = -off
 	}
 	for b := 0; b < fof; b++ {
-		jobs = append(jobs, "float:2:"+strconv.Itoa(b)+":"+strconv.Itoa(fof)+":"+strconv.Itoa(3-(b%4)%3))
+		slice := b
+		if tier != "thorough" {
+			slice = b*4 + off
+		}
+		jobs = append(jobs, "float:2:"+strconv.Itoa(slice)+":"+strconv.Itoa(fmod)+":"+strconv.Itoa(3-(b%4)%3))
 	}
 	jobs = append(jobs, "forms:bool", "@solver=cvc5@forms:float")
 	return jobs
